@@ -52,6 +52,8 @@ class C07(Prop):
             c = {"stream": rel, **cfg, "y": ys, "cols": cols, "w": w}
             if rel == "columns":
                 c["colnames"] = dc.gen_colnames(rng, ncols) if ncols <= 3 else None
+                if c["colnames"] is None and rng.random() < 0.35:
+                    c["xcontainer"] = "rows_mixed"  # the matrix as a list / tuple of rows mixing ints and floats
             if rel == "perm":
                 p = list(range(n))
                 rng.shuffle(p)
@@ -103,7 +105,7 @@ class C07(Prop):
         elif rel == "columns":
             out["other"] = {"rows": [], "errs": []}
             for c in case["cols"]:
-                r = dc.call_decompose(case, cols=[c], colnames=None)
+                r = dc.call_decompose(case, cols=[c], colnames=None, xcontainer=None)
                 if "err" in r:
                     out["other"]["errs"].append(r["err"])
                 else:
@@ -120,8 +122,8 @@ class C07(Prop):
         elif rel == "explicit":
             f = dc.functional_of(case)
             kw = {"functional": f}
-            if f in ("expectile", "quantile"):
-                kw["level_given"] = case["level"]
+            if f in ("expectile", "quantile") and (len(case["y"]) % 2 == 0 or case.get("elem_f")):
+                kw["level_given"] = case["level"]  # for odd n: explicit functional, the level taken from the scoring function
             out["other"] = dc.call_decompose(case, **kw)
         return out
 
